@@ -423,7 +423,18 @@ class Engine:
             return z3.BoolVal(False)
         if isinstance(a.t, TObj) or isinstance(b.t, TObj):
             if isinstance(a.t, TObj) and isinstance(b.t, TObj):
-                return z3.BoolVal(a.py == b.py if a.t.kind != 'class' else a.py == b.py)
+                kinds = {a.t.kind, b.t.kind}
+                if kinds == {'symset', 'charset'}:
+                    sym, lit_ = (a, b) if a.t.kind == 'symset' else (b, a)
+                    chars = lit_.py
+                    if isinstance(chars, (set, frozenset)) and len(chars) == 1:
+                        # set(s) == {c}  <=>  s is a non-empty run of c
+                        (c,) = tuple(chars)
+                        return z3.InRe(sym.py.e, z3.Plus(z3.Re(z3.StringVal(c))))
+                    raise OutOfSubset('set comparison with a non-singleton literal')
+                if a.t.kind != b.t.kind or a.t.kind not in ('class', 'module', 'func', 'builtin', 'charset'):
+                    raise OutOfSubset('comparison of %s with %s' % (a.t, b.t))
+                return z3.BoolVal(a.py == b.py)
             # abstract class reference vs concrete class: uninterpreted identity
             o, r = (a, b) if isinstance(a.t, TObj) else (b, a)
             if isinstance(r.t, TRef) and o.t.kind == 'class':
